@@ -777,7 +777,16 @@ impl Printer {
 
 /// Print a program; records every statement's line in the tree.
 pub fn print_program(stmts: &[Stmt], full_parens: bool) -> String {
+    print_program_from(stmts, full_parens, 1)
+}
+
+/// the program preceded by `first_line - 1` empty lines (its first statement sits on line `first_line`)
+pub fn print_program_from(stmts: &[Stmt], full_parens: bool, first_line: usize) -> String {
     let mut p = Printer::new(full_parens);
+    for _ in 1..first_line {
+        p.out.push('\n');
+    }
+    p.line = first_line.max(1);
     for (i, s) in stmts.iter().enumerate() {
         if i > 0 {
             p.nl();
